@@ -417,6 +417,11 @@ struct Spec
 	/// parsing, import expansion) before any module is analysed.
 	#[serde(default)]
 	surface_first: bool,
+	/// Call `for_wasm()` on the long-lived Compiler right before this
+	/// operation (the references of later operations come from a Compiler
+	/// that was retargeted at the start).
+	#[serde(default)]
+	wasm_from: Option<usize>,
 }
 
 struct StepResult
@@ -588,7 +593,7 @@ fn cmd_history(args: &[String]) -> i32
 				lints: true,
 				probe: false,
 			};
-			let wasm = spec.wasm;
+			let wasm = spec.wasm || spec.wasm_from.map_or(false, |k| i >= k);
 			let outcome =
 				std::panic::catch_unwind(std::panic::AssertUnwindSafe(|| {
 					let mut compiler = Compiler::default();
@@ -648,6 +653,10 @@ fn cmd_history(args: &[String]) -> i32
 		let (path, declarations) = &expanded[op.g][op.m];
 		let name = path.to_string_lossy().to_string();
 		let declarations = declarations.clone();
+		if spec.wasm_from == Some(i)
+		{
+			compiler.for_wasm().unwrap();
+		}
 		let r = run_step(&mut compiler, &name, declarations, &op.stop, op.lints, op.probe);
 		let failed = r.verdict != "ok" && r.verdict != "abandoned";
 		emit(step_json("step", i, op, &name, &r));
